@@ -114,8 +114,29 @@ fn pattern_positions(n: usize, rng: &mut Rng, nrand: usize) -> Vec<u64> {
                      (0..n).fold(0u64, |a, k| (a << 2) | (k as u64 % 2)), (0..n).fold(0u64, |a, k| (a << 2) | (3 * (k as u64 % 2))),
                      (0..n).fold(0u64, |a, k| (a << 2) | (1 + (k as u64 % 2)))];
     for pos in 0..n {
-        for d in 1..4u64 { v.push(d << (2 * pos)); }
+        for d in 1..4u64 {
+            v.push(d << (2 * pos));
+            // the neighbours of every such boundary position
+            for i in 1..=3u64 { v.push(((d << (2 * pos)) + i) & mask); v.push((d << (2 * pos)).wrapping_sub(i) & mask); }
+        }
         v.push(mask & !(3u64 << (2 * pos)));
+    }
+    for plen in 0..4usize { for run in [8usize, 12, 16, 20, 24] { for d in [0u64, 3] {
+        if plen + run > n { continue; }
+        let mut sv = rng.next() & mask;
+        if plen > 0 { sv |= 1u64 << (2 * (n - 1)); }
+        for k in (n - plen - run)..(n - plen) { sv = (sv & !(3u64 << (2 * k))) | (d << (2 * k)); }
+        v.push(sv);
+    } } }
+    // a random prefix, a long run of one digit, a random suffix
+    for _ in 0..(nrand / 4 + 4) {
+        if n < 6 { break; }
+        let run = 4 + rng.below((n - 3) as u64) as usize;
+        let start = rng.below((n - run + 1) as u64) as usize;
+        let d = [0u64, 3, 1, 2][rng.below(4) as usize];
+        let mut s = rng.next() & mask;
+        for k in start..(start + run).min(n) { s = (s & !(3u64 << (2 * k))) | (d << (2 * k)); }
+        v.push(s);
     }
     for _ in 0..nrand { v.push(rng.next() & mask); }
     v.sort_unstable();
@@ -349,6 +370,17 @@ pub fn gen_c12(tier: &str, seed: u64, out: &str) -> Value {
                 }
             }
         }
+    }
+    // parents at the special points (poles, face centres / vertices / edge midpoints, round coordinates such as the prime
+    // meridian and the equator)
+    for (i, sp) in crate::geo::special_points().iter().enumerate() {
+        for r in [3, 9, 16, 22, 24, 25, 26, 27, 28] {
+            if tier != "thorough" && (i + r as usize) % 2 == 0 { continue; }
+            if let Ok(p) = a5::lonlat_to_cell(*sp, r) {
+                for c in a5::cell_to_children(p, None).unwrap_or_default() { t.emit(childgeom_event(p, c)); n_geo += 1; }
+            }
+        }
+        t.cut();
     }
     // parents sitting on anomalies of the face -> sphere map (continuity scan shared with C04): a tear of the map moves
     // a child's centre relative to its parent's although both tiles are where they should be in the plane
